@@ -4,8 +4,7 @@ from engine import run_sim_check
 import drivercases as dc
 from asyncchecks import *
 
-THEOREMS = ["legal_ops_never_stuck_want_send", "pfds_aligned_invariant", "unregister_tolerates_absent", "remove_tolerates_absent",
-            "promises_released_on_destroy"]
+THEOREMS = ["want_send_on_unlisted_is_noop", "unregister_tolerates_absent", "remove_tolerates_absent", "pfds_aligned_invariant", "promises_resolved_at_most_once_guard"]
 
 
 def generate(rnd, tier):
